@@ -426,7 +426,16 @@ int harness_main(int argc, char ** argv)
         if ((k++ % o.shard_n) != o.shard_i) {
             continue;
         }
-        in.campaign();
+        try {
+            in.campaign();
+        } catch (const std::exception & e) {
+            // an exception that escapes while a case is executing comes from the code under test (in-domain operations
+            // do not throw); one that escapes outside any case is a harness problem
+            if (current_scope()) {
+                fail_exit(current_scope()->dump(), std::string("uncaught exception: ") + e.what());
+            }
+            infra_exit(std::string("uncaught exception outside any case in ") + in.name + ": " + e.what());
+        }
     }
     write_stats();
     return 0;
